@@ -3,6 +3,8 @@
 // canonical dump of the whole representation; every operation of the alphabet is applied in every state; the
 // oracle (model comparison + query battery) is evaluated in every state; canon-on-replay is asserted.
 #pragma once
+#include <signal.h>
+#include <unistd.h>
 #include <cstdio>
 #include <cstdlib>
 #include <cstring>
@@ -39,7 +41,37 @@ inline std::string jesc(const std::string& s) {
     return o;
 }
 
+// A history on which the real object crashes or does not return is a violation too: the history being executed is kept in a
+// static buffer and reported from a signal handler (SIGALRM after 30 s, SIGSEGV, SIGABRT, SIGBUS, SIGFPE).
+static char g_cur_raw[8192];
+static char g_cur_name[128];
+static long g_cur_states = 0, g_cur_transitions = 0;
+static int g_cur_replay = 0;
+inline void on_fatal(int sig) {
+    char buf[20000];
+    int n;
+    if (g_cur_replay)
+        n = snprintf(buf, sizeof buf, "{\"replay\": true, \"history\": \"%s\", \"ok\": false, \"why\": \"the history crashed or did not return (signal %d)\"}\n", g_cur_raw, sig);
+    else
+        n = snprintf(buf, sizeof buf, "{\"variant\": \"%s\", \"depth\": 0, \"states\": %ld, \"transitions\": %ld, \"max_depth\": 0, \"capped\": false, \"sample\": \"\", "
+                     "\"violation\": {\"history\": \"%s\", \"raw\": \"%s\", \"why\": \"the history crashed or did not return (signal %d)\"}}\n",
+                     g_cur_name, g_cur_states, g_cur_transitions, g_cur_raw, g_cur_raw, sig);
+    if (n > 0) (void)!write(1, buf, (size_t)n);
+    _exit(1);
+}
+inline void guard(const Hist& h) {
+    size_t k = 0;
+    for (auto& x : h) {
+        int n = snprintf(g_cur_raw + k, sizeof g_cur_raw - k, "%d:%d:%d,", x.kind, x.a, x.b);
+        if (n < 0 || k + (size_t)n >= sizeof g_cur_raw) break;
+        k += (size_t)n;
+    }
+    g_cur_raw[k] = 0;
+    alarm(30);
+}
+
 inline int main_(int argc, char** argv) {
+    for (int sg : {SIGALRM, SIGSEGV, SIGABRT, SIGBUS, SIGFPE}) signal(sg, on_fatal);
     int depth = 6, variant = 0;
     long max_states = 0;
     const char* replay = nullptr;
@@ -52,6 +84,7 @@ inline int main_(int argc, char** argv) {
         else if (a == "--variants") { for (int v = 0; v < nvariants(); v++) printf("%d\t%s\n", v, variant_name(v)); return 0; }
     }
     std::vector<Op> al = alphabet(variant);
+    snprintf(g_cur_name, sizeof g_cur_name, "%s", variant_name(variant));
     if (replay) {
         // replay: "kind:a:b,kind:a:b,..."
         Hist h;
@@ -64,7 +97,10 @@ inline int main_(int argc, char** argv) {
             h.push_back(o);
         }
         std::string canon, why;
+        g_cur_replay = 1;
+        guard(h);
         bool ok = run(variant, h, canon, why);
+        alarm(0);
         printf("{\"replay\": true, \"history\": \"%s\", \"ok\": %s, \"why\": \"%s\"}\n", jesc(hist_str(h)).c_str(), ok ? "true" : "false", jesc(why).c_str());
         return ok ? 0 : 1;
     }
@@ -91,7 +127,10 @@ inline int main_(int argc, char** argv) {
             h2.push_back(o);
             std::string canon, why;
             transitions++;
+            g_cur_states = states; g_cur_transitions = transitions;
+            guard(h2);
             bool ok = run(variant, h2, canon, why);
+            alarm(0);
             if (ok) {
                 // canon-on-replay: the same history must reach the same state again
                 if ((transitions & 1023) == 1) {
